@@ -7,27 +7,30 @@ from vlib.check import Machinery
 
 META = dict(
     engine="tlc-replay",
-    technique="TLA+ spec Actuation.tla (stages ClampCtrl / ActDot / Force / ClampForce / Transmit / ClampJoint / Advance over "
+    technique="TLA+ spec Actuation.tla (stages ClampCtrl / ActDot / Force / ClampForce / Transmit / GravComp / ClampJoint / Advance over "
               "exact rationals, models of 1-2 slide joints and 1-3 actuators built by setup actions) model-checked by TLC: "
               "range, disabled-group, power-balance (qfrc = moment' force), actrange and muscle-envelope invariants; every "
               "completed evaluation (exhaustive single-actuator lattice, exhaustive pairs in thorough, simulated "
               "multi-actuator layouts) is replayed through mj_step on a model generated from the case and "
-              "actuator_force, qfrc_actuator, act_dot and the next act are compared with the specification's values "
+              "actuator_force, qfrc_actuator, qfrc_gravcomp, qfrc_passive, act_dot and the next act are compared with the specification's values "
               "(exactly; 1e-10 relative when a muscle is involved).",
     text="For joint-transmission actuators on slide joints with fixed/affine/muscle gain, none/affine/muscle bias, "
          "none/integrator/filter/muscle dynamics, ctrlrange (and the clampctrl flag), forcerange, actrange, actearly, "
-         "gear, groups disabled through disableactuator, the actuation flag and joint actuatorfrcrange, mj_step produces "
-         "exactly the actuator_force, qfrc_actuator, act_dot and act of Actuation.tla on every lattice point.",
+         "gear, groups disabled through disableactuator, the actuation flag, joint actuatorfrcrange and body gravcomp "
+         "(passive or routed through qfrc_actuator by actuatorgravcomp, then inside the joint range), mj_step produces "
+         "exactly the actuator_force, qfrc_actuator, qfrc_gravcomp, qfrc_passive, act_dot and act of Actuation.tla on "
+         "every lattice point.",
     note="Trusted: TLC, harness law_drv.cc, the model description generated from each case, the reading of the actuator "
          "documentation in Actuation.tla (muscle curves from doc/_static/FLV.m as implemented piecewise-rationally). "
          "Tendon / site / slider-crank / body transmissions, tendon actuator force limits, filterexact, dcmotor, pid and "
-         "so3 actuator families, delays and gravity compensation are not covered.",
+         "so3 actuator families and delays are not covered; gravity compensation only for unit-mass bodies on slide joints with "
+         "gravity along the joint axis.",
     ref="DESIGN.md section 4 C27")
 
 DYN = {"none": 0, "integrator": 1, "filter": 2, "muscle": 4}
 GT = {"fixed": 0, "affine": 1, "muscle": 2}
 BT = {"none": 0, "affine": 1, "muscle": 2}
-OBS = "actuator_force,qfrc_actuator,act_dot,act"
+OBS = "actuator_force,qfrc_actuator,act_dot,act,qfrc_gravcomp,qfrc_passive"
 
 
 def _lim(flag, lo, hi, name):
@@ -41,9 +44,9 @@ def model_lines(ev):
     cfg, acts, jl = ev["cfg"], ev["acts"], ev["jl"]
     ls = ["option timestep=%s gravity=0,0,0" % L.num(cfg["h"])]
     for j in range(cfg["nj"]):
-        ls.append("body name=b%d mass=1 inertia=1,1,1 explicitinertial=1 pos=0,%d,0" % (j + 1, j))
-        ls.append("joint body=b%d name=j%d type=2 axis=1,0,0%s" % (
-            j + 1, j + 1, _lim(jl[j]["lim"], jl[j]["lo"], jl[j]["hi"], "actfrc")))
+        ls.append("body name=b%d mass=1 inertia=1,1,1 explicitinertial=1 pos=0,%d,0 gravcomp=%s" % (j + 1, j, L.num(jl[j]["gc"])))
+        ls.append("joint body=b%d name=j%d type=2 axis=1,0,0 actgravcomp=%d%s" % (
+            j + 1, j + 1, 1 if jl[j]["agc"] else 0, _lim(jl[j]["lim"], jl[j]["lo"], jl[j]["hi"], "actfrc")))
     for i, a in enumerate(acts):
         s = "actuator name=a%d trntype=0 target=j%d group=%d gear=%s" % (i + 1, cfg["acts"][i]["jnt"], a["group"],
                                                                        L.num(a["gear"]))
@@ -68,7 +71,7 @@ def options(cfg):
     dis = 0
     for g in cfg["dis"]:
         dis |= 1 << g
-    return [("timestep", L.num(cfg["h"])), ("integrator", "0"),
+    return [("timestep", L.num(cfg["h"])), ("integrator", "0"), ("gravity", L.num(cfg["grav"]) + ",0,0"),
             ("disableflags", str((0 if cfg["clamp"] else 256) | (0 if cfg["actuation"] else 2048))),
             ("disableactuator", str(dis))]
 
@@ -81,6 +84,9 @@ def expectations(ev):
         ex.append(("actuator_force", i, L.fr(ev["frc"][i]), i, None))
     for j in range(ev["cfg"]["nj"]):
         ex.append(("qfrc_actuator", j, L.fr(ev["qf"][j]), None, j))
+    for j in range(ev["cfg"]["nj"]):
+        ex.append(("qfrc_gravcomp", j, L.fr(ev["qgc"][j]), None, j))
+        ex.append(("qfrc_passive", j, L.fr(ev["qpas"][j]), None, j))
     k = 0
     for i, a in enumerate(acts):
         if a["dyn"] != "none":
@@ -130,6 +136,8 @@ def jnt_feature(ev, j):
     cfg = ev["cfg"]
     n = sum(1 for x in cfg["acts"] if x["jnt"] == j + 1)
     f = ["actuators=%d" % n, "actfrclimited" if ev["jl"][j]["lim"] else "unlimited"]
+    if ev["jl"][j]["gc"][0] and cfg["grav"][0]:
+        f.append("actuatorgravcomp" if ev["jl"][j]["agc"] else "passive-gravcomp")
     if any(ev["acts"][i]["group"] in set(cfg["dis"]) for i, x in enumerate(cfg["acts"]) if x["jnt"] == j + 1):
         f.append("group-disabled")
     if not cfg["actuation"]:
@@ -159,7 +167,8 @@ def run(ctx):
     jobs = {"mc": ("dump", "Actuation_MC" if q else "Actuation_Deep"),
             "pair": ("dump", None if q else "Actuation_PairDeep"),
             "sim": ("sim", "Actuation_Sim", 120 if q else 1500, 30),
-            "neg1": ("neg", "Actuation_Neg1"), "neg2": ("neg", None if q else "Actuation_Neg2")}
+            "neg1": ("neg", "Actuation_Neg1"), "neg2": ("neg", None if q else "Actuation_Neg2"),
+            "neg3": ("neg", "Actuation_Neg3")}
 
     def go(n):
         j = jobs[n]
@@ -169,13 +178,15 @@ def run(ctx):
             return L.dump_evs("Actuation", j[1], want=("step",), timeout=to)
         return L.simulate_evs("Actuation", j[1], num=j[2], depth=j[3], seed=ctx.seed + 27, want=("step",), timeout=to)
 
-    with cf.ThreadPoolExecutor(5) as ex:
+    with cf.ThreadPoolExecutor(6) as ex:
         futs = {n: ex.submit(go, n) for n in jobs if jobs[n][1]}
         out = {n: (futs[n].result() if n in futs else None) for n in jobs}
     for n in ("mc", "pair", "sim"):
         if out[n]:
             ctx.tlc_ok(out[n][0], jobs[n][1])
     L.negative_record(ctx, out["neg1"], "spec variant 'no forcerange clamp' violates ForceInRange")
+    L.negative_record(ctx, out["neg3"], "spec variant 'joint clamp before actuator-routed gravity compensation' violates the "
+                                        "joint-range invariants (JointClampMinimal / JointInRange)")
     if out["neg2"] is not None:
         L.negative_record(ctx, out["neg2"], "spec variant 'moment = gear squared' violates PowerBalance")
     evs = [e for n in ("mc", "pair") if out[n] for e in out[n][1]]
@@ -188,8 +199,11 @@ def run(ctx):
     clamped = sum(1 for e in evs for i, a in enumerate(e["acts"])
                   if a["clim"] and e["cfg"]["clamp"] and not (L.fr(a["clo"]) <= L.fr(e["st"]["u"][i]) <= L.fr(a["chi"])))
     disabled = sum(1 for e in evs for a in e["acts"] if a["group"] in set(e["cfg"]["dis"]))
-    if len(seen) < 4 or not clamped or not disabled:
-        raise Machinery("vacuity: presets %s, clamped controls %d, disabled actuators %d" % (sorted(seen), clamped, disabled))
+    routed = sum(1 for e in evs for j in range(e["cfg"]["nj"]) if e["jl"][j]["agc"] and e["jl"][j]["lim"] and e["qgc"][j][0]
+                 and L.fr(e["qf"][j]) in (L.fr(e["jl"][j]["lo"]), L.fr(e["jl"][j]["hi"])))
+    if len(seen) < 4 or not clamped or not disabled or not routed:
+        raise Machinery("vacuity: presets %s, clamped controls %d, disabled actuators %d, joint clamps acting on a total that "
+                        "includes gravity compensation %d" % (sorted(seen), clamped, disabled, routed))
     # one harness run: models are compiled once per distinct (actuators, joints) layout
     sc = L.Script()
     slots, lastopt, cases = {}, {}, []
@@ -258,9 +272,10 @@ def run(ctx):
         feat = act_feature(ev, ai) if ai is not None else (jnt_feature(ev, ji) if ji is not None else "harness")
         opts, body = case_script(ev, 0)
         ctx.violation("%s:%s" % (f, feat),
-                      "actuators %s on joints %s (joint limits %s), clampctrl=%s actuation=%s disabled groups %s, ctrl=%s act=%s "
+                      "actuators %s on joints %s (joint presets %s, gravity %s), clampctrl=%s actuation=%s disabled groups %s, ctrl=%s act=%s "
                       "qpos=%s qvel=%s: %s[%d] = %r, Actuation.tla says %s" % (
                           [x["pre"] for x in ev["cfg"]["acts"]], [x["jnt"] for x in ev["cfg"]["acts"]], list(ev["cfg"]["jl"]),
+                          L.fr(ev["cfg"]["grav"]),
                           ev["cfg"]["clamp"], ev["cfg"]["actuation"], sorted(ev["cfg"]["dis"]),
                           [str(L.fr(z)) for z in ev["st"]["u"]], [str(L.fr(z)) for z in ev["st"]["w"]],
                           [str(L.fr(z)) for z in ev["st"]["q"]], [str(L.fr(z)) for z in ev["st"]["v"]], f, k2, got, want),
